@@ -2,9 +2,12 @@
 
 Real `threading.Thread`s run the repo's unmodified `run()` bodies, but only one logical
 thread holds the *baton* at any time.  At every yield point (before a queue put / get,
-before a frame read, after thread start, at thread end, before join) the running thread
+before a frame read, after thread start, at thread end, before join, at queue / thread state
+queries) the running thread
 hands the baton to a thread chosen from a *choice sequence*; a thread is runnable unless it
-waits on a full queue (put), an empty queue (get) or an unfinished thread (join).  No
+waits on a full queue (put), an empty queue (get) or an unfinished thread (join); a wait
+*with a timeout* may additionally expire at any moment while its condition is false (a
+choice like any other, at most `max_timeouts` times per execution).  No
 runnable thread while some are unfinished = deadlock.  The schedule is therefore a pure
 function of the choice sequence, which makes interleavings enumerable (DFS over choice
 points) and replayable.
@@ -23,7 +26,7 @@ class StepLimit(BaseException):
 
 
 class Scheduler:
-    def __init__(self, choices=(), max_steps=5000):
+    def __init__(self, choices=(), max_steps=5000, max_timeouts=3):
         self.cv = threading.Condition()
         self.choices = list(choices)
         self.taken = []  # (chosen index, n alternatives) at every real choice point
@@ -37,6 +40,8 @@ class Scheduler:
         self.events = []  # readable schedule trace
         self.blocked_put = 0
         self.blocked_get = 0
+        self.max_timeouts = max_timeouts  # bound on "a timed wait expires" events per execution
+        self.timeouts = 0
 
     # -- registration
     def register_current(self, name):
@@ -58,6 +63,9 @@ class Scheduler:
                 continue
             if t["pred"] is None or t["pred"]():
                 out.append(n)
+            elif t.get("timed") and self.timeouts < self.max_timeouts:
+                # a wait with a timeout may expire at any moment while its condition is false
+                out.append(n)
         return out
 
     def _pick(self):
@@ -78,8 +86,9 @@ class Scheduler:
         self.current = nxt
         self.cv.notify_all()
 
-    def switch(self, kind, pred=None):
-        """Yield point of the calling thread; returns when it is scheduled again."""
+    def switch(self, kind, pred=None, timed=False):
+        """Yield point of the calling thread; returns when it is scheduled again.
+        Returns "timeout" when a timed wait was scheduled while its condition was still false."""
         me = self.me()
         with self.cv:
             if self.deadlock:
@@ -96,6 +105,7 @@ class Scheduler:
                 elif kind == "get":
                     self.blocked_get += 1
             self.threads[me]["pred"] = pred
+            self.threads[me]["timed"] = bool(timed)
             self.events.append(f"{me}:{kind}")
             self._pick()
             while self.current != me:
@@ -103,6 +113,12 @@ class Scheduler:
                     raise Deadlock()
                 self.cv.wait(timeout=30)
             self.threads[me]["pred"] = None
+            self.threads[me]["timed"] = False
+            if pred is not None and timed and not pred():
+                self.timeouts += 1
+                self.events.append(f"{me}:{kind}-timeout")
+                return "timeout"
+            return None
 
     def thread_begin(self, name):
         """First thing a new logical thread does: register and wait to be scheduled."""
@@ -145,17 +161,56 @@ class SchedQueue(queue.Queue):
         self.put_log = []
         self.get_log = []
 
+    def _full(self):
+        return 0 < self.maxsize <= len(self.queue)
+
+    def _empty(self):
+        return len(self.queue) == 0
+
     def put(self, item, block=True, timeout=None):
-        self.sched.switch("put", (lambda: not self.full()))
+        if not block:
+            self.sched.switch("put-nowait")
+            if self._full():
+                raise queue.Full
+        else:
+            r = self.sched.switch("put", (lambda: not self._full()), timed=timeout is not None)
+            if r == "timeout":
+                raise queue.Full
         # NB: Queue.put_nowait calls self.put -> delegate to the base class explicitly.
         queue.Queue.put(self, item, False)
         self.put_log.append(dict(item) if isinstance(item, dict) else item)  # consumer mutates the dict
 
     def get(self, block=True, timeout=None):
-        self.sched.switch("get", (lambda: not self.empty()))
+        if not block:
+            self.sched.switch("get-nowait")
+            if self._empty():
+                raise queue.Empty
+        else:
+            r = self.sched.switch("get", (lambda: not self._empty()), timed=timeout is not None)
+            if r == "timeout":
+                raise queue.Empty
         item = queue.Queue.get(self, False)
         self.get_log.append(item)
         return item
+
+    def put_nowait(self, item):
+        return self.put(item, block=False)
+
+    def get_nowait(self):
+        return self.get(block=False)
+
+    # state queries by the code under test are yield points too (their answer may be stale afterwards)
+    def empty(self):
+        self.sched.switch("empty?")
+        return self._empty()
+
+    def full(self):
+        self.sched.switch("full?")
+        return self._full()
+
+    def qsize(self):
+        self.sched.switch("qsize?")
+        return len(self.queue)
 
 
 def explore_all(run_one, max_runs=None):
